@@ -69,7 +69,23 @@ func runFold(payload []*Sx) *Sx {
 	if ok1 != ok2 || string(b1) != string(b2) {
 		same = "0"
 	}
+	// JSON form before/after
+	j1, e1 := pol.MarshalJSON()
+	j2, e2 := cedar.NewPolicyFromAST((*cedarAST)(a2)).MarshalJSON()
+	if (e1 == nil) != (e2 == nil) || string(j1) != string(j2) {
+		same = "0"
+	}
+	// what Get / Map / All hand out is the policy that was added, in the same visible form
+	if g := ps.Get(cedar.PolicyID(id)); g == nil {
+		same = "0"
+	} else if bg, okg := safeMarshalCedar(g); okg != ok2 || string(bg) != string(b2) {
+		same = "0"
+	}
 	folded := xeval.VerifFoldPolicy(a2)
+	_, a3 := policyFromSx(payload[2])
+	if !reflect.DeepEqual(a2, a3) {
+		same = "0" // folding a policy must not touch the tree it is given
+	}
 	return L(L(A("compiled"), compiled), L(A("unfolded"), unfolded), L(A("astsame"), A(same)), L(A("folded"), policyToSx(id, folded)))
 }
 
